@@ -16,9 +16,9 @@ from common import *
 import journal as J
 import c11 as RX
 
-IMPORTS = ("From TkModel Require Import Base Dec Acct Txn Journal Round Price Time Regex T06_run.\n"
+IMPORTS = ("From TkModel Require Import Base Dec Acct Txn Journal Round Price Time Regex T06_run T07_run.\n"
            "From TkModel Require Filter MetaText.\n"
-           "From TkCorr Require Import T06_corr.\n")
+           "From TkCorr Require Import T06_corr T07_corr.\n")
 
 HASHES = {"SHA-256": "sha256", "SHA-512": "sha512", "SHA-512/256": "sha512_256", "SHA3-256": "sha3_256", "SHA3-512": "sha3_512"}
 # report zones with a fixed offset (POSIX sign: Etc/GMT-3 = +03:00); the offsets are stated here, not read from the tz database
@@ -295,6 +295,113 @@ BREAKS = ["no-final-newline", "bad-posting", "unbalanced", "lone-cr", "dup-uuid"
 
 
 PROFILES = ["md", "eqconv"]
+T07_PROFILES = ["dir", "strict", "regex", "dir+strict", "dir+regex", "strict+regex"]
+ANY = ("Star", ("Any",))
+
+
+def used_names(w):
+    """the names a strict run needs declared: posted accounts (the amount-less last posting included), posting and closing-price
+    commodities, tags; report commodity, price-file commodities (when conversion is on), equity account (when equity is exported)"""
+    accs, comms, tags = set(), set(), set()
+    for t in w["txns"]:
+        for p in t["posts"]:
+            accs.add(p["acc"])
+            if p["comm"]:
+                comms.add(p["comm"])
+            if p.get("closing"):
+                comms.add(p["closing"][2])
+        if t.get("last"):
+            accs.add(t["last"]["acc"])
+        tags.update(t.get("tags") or [])
+    cfgc = set()
+    if w["rc"] is not None:
+        cfgc.add(w["rc"])
+    if w["lt"] != "none" and w["prices"]:
+        for l in w["prices"].split("\n"):
+            f = l.split()
+            if len(f) >= 5 and f[0] == "P":
+                cfgc.update([f[2], f[4]])
+    return sorted(accs), sorted(comms | cfgc), sorted(tags)
+
+
+def sel_pattern(r, accounts):
+    k = r.random()
+    a = r.choice(accounts)
+    first = a.split(":")[0]
+    if k < 0.2:
+        return RX.lit(a)
+    if k < 0.4:
+        return RX.seq(RX.lit(first), ("Opt", ("Group", False, RX.seq(RX.lit(":"), ANY))))           # first(?::.*)?
+    if k < 0.5:
+        return RX.seq(RX.lit(first), ANY)                                                          # first.*
+    if k < 0.6:
+        return RX.seq(ANY, RX.lit(":" + a.split(":")[-1]))                                         # .*:last
+    if k < 0.68:
+        return ("Alt", RX.lit(a), RX.lit(r.choice(accounts)))
+    if k < 0.74:
+        return r.choice([ANY, RX.lit("zz"), ("Empty",), RX.seq(("Class", False, [(97, 101)]), ANY), RX.seq(("Class", True, [(97, 97)]), ANY)])
+    return RX.gen_re(r, 2)
+
+
+def pats_gen(r, accounts):
+    k = r.random()
+    if k < 0.4:
+        return None
+    if k < 0.45:
+        return []
+    return [sel_pattern(r, accounts) for _ in range(r.randint(1, 3))]
+
+
+def apply_t07(r, w, profile, accounts):
+    """T07 worlds: directory input (several files, nested / dot directories, files that must not be read), charts and strict mode,
+    regular-expression account selectors"""
+    t7 = {"files": None, "ext": r.choice(["txn", "txn", "txn", "journal", "t"]), "strict": False, "charts": None, "pats": None,
+          "cli_input": r.random() < 0.4}
+    parts = profile.split("+")
+    if "dir" in parts:
+        t7["split"] = True
+        if w["break"] is None and r.random() < 0.15:
+            w["break"] = "bad-file"
+    if "regex" in parts:
+        t7["pats"] = {"accounts": pats_gen(r, accounts) if r.random() < 0.4 else None, "bal": pats_gen(r, accounts), "grp": pats_gen(r, accounts),
+                      "reg": pats_gen(r, accounts), "eq": pats_gen(r, accounts)}
+    else:
+        # the name selectors of the world as literal patterns (T07_run reads patterns only)
+        t7["pats"] = {k: (None if w[k] is None else [RX.lit(a) for a in w[k]]) for k in ("accounts", "bal", "grp", "reg", "eq")}
+        if all(v is None for v in t7["pats"].values()):
+            t7["pats"] = None
+    for k in ("accounts", "bal", "grp", "reg", "eq"):
+        w[k] = None
+    if "strict" in parts:
+        accs, comms, tags = used_names(w)
+        if "equity" in w["exports"] or r.random() < 0.3:
+            accs = sorted(set(accs + [w["eqa"]]))
+        ch = {"accounts": accs, "comms": comms, "permit_empty": True, "tags": tags}
+        t7["strict"] = True
+        k = r.random()
+        if k < 0.12:
+            ch["accounts"] = sorted(set(accs + ["zz:top", "a:b:c:d:e"]))
+            ch["comms"] = comms + ["XAU"]
+            ch["tags"] = tags + ["unused"]
+        elif k < 0.40:
+            # one needed name is missing: strict mode must refuse, strict off must not care
+            kind = r.choice([x for x, l in (("accounts", ch["accounts"]), ("comms", ch["comms"]), ("tags", ch["tags"])) if l] or ["accounts"])
+            if ch[kind]:
+                gone = r.choice(ch[kind])
+                ch[kind] = [x for x in ch[kind] if x != gone]
+                if kind == "accounts" and r.random() < 0.5 and ":" not in gone:
+                    ch[kind].append(gone + ":child")       # only a descendant is declared: the parent is synthetic, not postable
+            t7["strict"] = r.random() < 0.75
+        elif k < 0.50:
+            t7["strict"] = False
+        elif k < 0.60:
+            ch["permit_empty"] = False                    # a posting without commodity is refused in BOTH modes
+            t7["strict"] = r.random() < 0.5
+        t7["charts"] = ch
+    w["t07"] = t7
+    return w
+
+
 
 
 def apply_profile(r, w, profile, accounts):
@@ -385,8 +492,10 @@ def gen_world(r, idx, profile=None):
             w["filter"] = ["or", [w["filter"], r.choice([["desc", REGEXES[5]], ["pacc", REGEXES[1]], ["amount", "gt", REGEXES[2], [0, 0]]])]]
     if r.random() < 0.15:
         w["break"] = r.choice(BREAKS)
-    if profile is not None:
+    if profile in PROFILES:
         apply_profile(r, w, profile, accounts)
+    elif profile is not None:
+        apply_t07(r, w, profile, accounts)
     return finish_world(r, w)
 
 
@@ -407,7 +516,16 @@ def finish_world(r, w):
     if b == "bad-prices" and w["prices"] is not None and w["lt"] != "none":
         w["prices"] = r.choice([" " + w["prices"], w["prices"].rstrip("\n"), w["prices"] + "Q x\n", "\n\n", w["prices"].replace(" ", "", 1)])
     ly = w["layout"]
-    text = ly["lead"] + J.print_journal(txns, indent=ly["indent"], meta_order=ly["order"], sep=ly["sep"])
+    t7 = w.get("t07")
+    groups = [txns]
+    if t7 and t7.get("split"):
+        # distribute the transactions over 2..4 files (some may stay empty of the split and are dropped), any order
+        k = r.randint(2, 4)
+        groups = [[] for _ in range(k)]
+        for t in txns:
+            groups[r.randrange(k)].append(t)
+        groups = [g for g in groups if g] or [txns]
+    text = ly["lead"] + J.print_journal(groups[0], indent=ly["indent"], meta_order=ly["order"], sep=ly["sep"])
     if b == "no-final-newline":
         text = text.rstrip("\n")
     elif b == "bad-posting":
@@ -424,6 +542,22 @@ def finish_world(r, w):
     if ly["crlf"]:
         text = text.replace("\n", "\r\n")
     w["journal"] = text
+    if t7:
+        ext = t7["ext"]
+        names = r.sample(["j.%s" % ext, "2024/01/a.%s" % ext, "sub/b.c.%s" % ext, ".hidden/deep/q.%s" % ext, "sub/.late.%s" % ext, "z.%s" % ext,
+                          "..r.%s" % ext, "A/B/C/D/e.%s" % ext], len(groups))
+        files = [[names[0], text]]
+        for nm, g in zip(names[1:], groups[1:]):
+            files.append([nm, J.print_journal(g, indent=r.choice([" ", "\t"]), meta_order=ly["order"], sep="\n")])
+        if t7.get("split") or r.random() < 0.5:
+            # files that must NOT be read: other suffixes, a name that is only the suffix, the suffix as a prefix of another one
+            for nm in r.sample(["notes.txt", ".%s" % ext, "sub/x.%sx" % ext, "README", "old.%s.bak" % ext, "x%s" % ext, "sub/.%s" % ext], r.randint(1, 3)):
+                files.append([nm, "this is not a journal\n"])
+        if t7.get("split") and b == "bad-file" and len(files) > 1:
+            files.append(["zz/broken.%s" % ext, r.choice(["2024-01-01 'x\n a  1\n", "junk\n", "", "2024-01-01\n a  1\n e  -2\n"])])
+        r.shuffle(files)
+        t7["files"] = files
+        t7.pop("split", None)
     w["uuids"] = [t["uuid"].lower() if t["uuid"] else None for t in txns]
     del w["txns"]
     return w
@@ -434,9 +568,35 @@ def eff(w, key):
     return per if per is not None else (w["accounts"] if w["accounts"] is not None else [])
 
 
+def sel_texts(w, key):
+    """the configured selector list of a key (accounts / bal / grp / reg / eq) as texts, or None"""
+    t7 = w.get("t07")
+    if t7 and t7.get("pats") is not None:
+        l = t7["pats"].get(key)
+        return None if l is None else [RX.pp(tup(p)) for p in l]
+    return w[key]
+
+
+def eff_texts(w, key):
+    per, glob = sel_texts(w, key), sel_texts(w, "accounts")
+    return per if per is not None else (glob if glob is not None else [])
+
+
+def charts_files(w):
+    """(accounts.toml, commodities.toml, tags.toml) texts of a world with charts, else None"""
+    t7 = w.get("t07")
+    if not t7 or t7.get("charts") is None:
+        return None
+    ch = t7["charts"]
+    return ("accounts = %s\n" % J.toml_list(ch["accounts"]),
+            "permit-empty-commodity = %s\ncommodities = %s\n" % (g_bool(ch["permit_empty"]), J.toml_list(ch["comms"])),
+            "tags = %s\n" % J.toml_list(ch["tags"]))
+
+
 def toml_of(w):
     def acc(k):
-        return "" if w[k] is None else ", accounts = %s" % J.toml_list(w[k])
+        l = sel_texts(w, k)
+        return "" if l is None else ", accounts = %s" % J.toml_list(l)
     off = w["jz_min"]
     tz = 'name = "UTC"' if off == 0 else 'offset = "%s%02d:%02d"' % ("+" if off >= 0 else "-", abs(off) // 60, abs(off) % 60)
     dt = w["deftime"]
@@ -445,15 +605,21 @@ def toml_of(w):
         price = '[price]\ndb-path = "prices.db"\nlookup-type = "%s"' % w["lt"]
     elif w["lt"] != "none":
         price = '[price]\ndb-path = "none"\nlookup-type = "%s"' % w["lt"]
-    toml = J.make_toml(audit=g_bool(w["audit"]), hash=w["hash"], deftime="%02d:%02d:%02d" % (dt // 3600, dt // 60 % 60, dt % 60), tz=tz,
+    t7 = w.get("t07") or {}
+    ck = dict(strict=g_bool(bool(t7.get("strict"))))
+    if t7.get("charts") is not None:
+        ck.update(accounts="accounts.toml", commodities="commodities.toml", tags="tags.toml")
+    toml = J.make_toml(audit=g_bool(w["audit"]), hash=w["hash"], **ck, deftime="%02d:%02d:%02d" % (dt // 3600, dt // 60 % 60, dt % 60), tz=tz,
                        price=price, rtz=w["rtz"], smin=w["smin"], smax=w["smax"],
                        rcomm=('commodity = "%s"' % w["rc"]) if w["rc"] is not None else "",
-                       raccounts=("accounts = %s" % J.toml_list(w["accounts"])) if w["accounts"] is not None else "",
+                       raccounts=("accounts = %s" % J.toml_list(sel_texts(w, "accounts"))) if sel_texts(w, "accounts") is not None else "",
                        targets=", ".join('"%s"' % t for t in w["targets"]), exports=", ".join('"%s"' % x for x in w["exports"]),
                        bal_acc=acc("bal"), balgrp_acc=acc("grp"), reg_acc=acc("reg"), eq_acc=acc("eq"),
                        reg_ts=', timestamp-style = "%s"' % w["style"], group_by=w["group_by"], eqa=w["eqa"])
     for old, new in zip(("BAL", "BALGRP", "REG"), w["titles"]):
         toml = toml.replace('title = "%s"' % old, 'title = "%s"' % new)
+    if t7:
+        toml = toml.replace('suffix = "txn"', 'suffix = "%s"' % t7["ext"])
     return toml
 
 
@@ -475,7 +641,7 @@ def hash_table(w):
     for s in cand:
         pre.add("".join(u + "\n" for u in sorted(s)))
     for key in ("bal", "grp", "reg", "eq"):
-        names = eff(w, key)
+        names = eff_texts(w, key)
         if names:
             pre.add("".join(p + "\n" for p in sorted(names)))
     return g_list(["(%s, %s)" % (g_str(p), g_bytes(digest(w["hash"], p.encode("utf-8")))) for p in sorted(pre)])
@@ -499,8 +665,32 @@ def cfg_term(w):
                g_str("out"), g_str(w["prefix"])))
 
 
+def g_pats(o):
+    return "None" if o is None else "(Some %s)" % (g_list([RX.g_re(tup(p)) for p in o]) if o else "(@nil re)")
+
+
+def run7_term(w):
+    t7 = w["t07"]
+    ch = "None"
+    if t7.get("charts") is not None:
+        c = t7["charts"]
+        ch = "(Some (mkChartCfg %s %s %s %s))" % (g_names(c["accounts"]), g_strs(c["comms"]), g_bool(c["permit_empty"]), g_strs(c["tags"]))
+    pats = t7.get("pats") or {}
+    base = dict(w, accounts=None, bal=None, grp=None, reg=None, eq=None) if t7.get("pats") is not None else w
+    return "(mkRun7 %s %s %s %s %s %s %s %s %s)" % (cfg_term(base), g_str(t7["ext"]), g_bool(t7["strict"]), ch,
+                                                  g_pats(pats.get("accounts")), g_pats(pats.get("bal")), g_pats(pats.get("grp")),
+                                                  g_pats(pats.get("reg")), g_pats(pats.get("eq")))
+
+
+def g_input_files(w):
+    fs = sorted(w["t07"]["files"])
+    return g_list(["(%s, %s)" % (g_list([g_str(c) for c in p.split("/")]), g_str(t)) for p, t in fs]) if fs else "(@nil (list (list N) * list N))"
+
+
 def world_args(w):
     ptext = "(Some %s)" % g_str(w["prices"]) if (w["prices"] is not None and w["price_section"]) else "None"
+    if w.get("t07"):
+        return "%s %s %s %s" % (run7_term(w), hash_table(w), g_input_files(w), ptext)
     return "%s %s %s %s" % (cfg_term(w), hash_table(w), g_str(w["journal"]), ptext)
 
 
@@ -509,10 +699,24 @@ def run_world(w, root):
     d = os.path.join(root, "w%s" % w["idx"])
     os.makedirs(d)
     open(os.path.join(d, "tackler.toml"), "w", encoding="utf-8").write(toml_of(w))
-    open(os.path.join(d, "j.txn"), "w", encoding="utf-8", newline="").write(w["journal"])
     if w["prices"] is not None:
         open(os.path.join(d, "prices.db"), "w", encoding="utf-8", newline="").write(w["prices"])
-    args = ["--config", "tackler.toml", "--input.file", "j.txn"]
+    t7 = w.get("t07")
+    if t7:
+        # directory input: every file below <config dir>/txns; the suffix from the configuration file or from the command line
+        for p, text in t7["files"]:
+            fp = os.path.join(d, "txns", *p.split("/"))
+            os.makedirs(os.path.dirname(fp), exist_ok=True)
+            open(fp, "w", encoding="utf-8", newline="").write(text)
+        os.makedirs(os.path.join(d, "txns"), exist_ok=True)
+        cf = charts_files(w)
+        if cf:
+            for nm, text in zip(("accounts.toml", "commodities.toml", "tags.toml"), cf):
+                open(os.path.join(d, nm), "w", encoding="utf-8").write(text)
+        args = ["--config", "tackler.toml"] + (["--input.fs.dir", "txns", "--input.fs.ext", t7["ext"]] if t7.get("cli_input") else [])
+    else:
+        open(os.path.join(d, "j.txn"), "w", encoding="utf-8", newline="").write(w["journal"])
+        args = ["--config", "tackler.toml", "--input.file", "j.txn"]
     if w["filter"] is not None:
         args += ["--api-filter-def", filter_arg(w)]
     if w["before"] is not None:
@@ -597,8 +801,15 @@ def equity_oracle(run, worlds, st):
     reqs = []
     for w in pick:
         plain = dict(w, rc=None, lt="none", before=None, price_section=False, prices=None)
-        rq = {"conf": {"toml": toml_of(plain)}, "overlaps": {}, "inputs": [{"text": w["journal"]}],
-              "ops": [{"op": "balance", "kind": "equity", "prices": False, "ras": eff(w, "eq")}]}
+        conf = {"toml": toml_of(plain)}
+        cf = charts_files(w)
+        if cf:
+            conf.update({"accounts": cf[0], "commodities": cf[1], "tags": cf[2]})
+        inputs = [{"text": w["journal"]}]
+        if w.get("t07"):
+            inputs = [{"name": "f%d.txn" % i, "text": t} for i, (p, t) in enumerate(sorted(w["t07"]["files"])) if py_has_ext(w["t07"]["ext"], p.split("/")[-1])]
+        rq = {"conf": conf, "overlaps": {}, "inputs": inputs,
+              "ops": [{"op": "balance", "kind": "equity", "prices": False, "ras": eff_texts(w, "eq")}]}
         if w["filter"] is not None:
             rq["filter"] = filter_arg(w)
         reqs.append(rq)
@@ -642,6 +853,12 @@ def equity_oracle(run, worlds, st):
                           % ("a converted balance report" if conv and "balance" in w["targets"] else "reports %s" % w["targets"], why), rep)
 
 
+def py_has_ext(ext, name):
+    """std::path::Path::extension(name) == ext: the part after the last dot; a leading dot does not count"""
+    stem = name[1:] if name.startswith(".") else name
+    return "." in stem and stem.rsplit(".", 1)[1] == ext
+
+
 def python_oracles(run, worlds, st, root):
     """before the model is consulted at all: plain violations with the concrete world"""
     pick = [w for w in worlds if w["mode"] == "files" and w["impl"]["rc"] == 0 and w["targets"]]
@@ -666,15 +883,16 @@ def python_oracles(run, worlds, st, root):
 
 def case_term(w):
     im = w["impl"]
+    v = "t07" if w.get("t07") else "t06"
     if w["mode"] == "console":
-        return "t06_console_case %s %s %s" % (world_args(w), g_bool(im["rc"] == 0), g_str(im["stdout"]))
+        return "%s_console_case %s %s %s" % (v, world_args(w), g_bool(im["rc"] == 0), g_str(im["stdout"]))
     fl = g_list(["(%s, %s)" % (g_str(n), g_str(c)) for n, c in im["files"].items()]) if im["files"] else "(@nil (list N * list N))"
-    return "t06_files_case %s %s %s %s" % (world_args(w), g_bool(im["rc"] == 0), fl, g_str(im["stdout"]))
+    return "%s_files_case %s %s %s %s" % (v, world_args(w), g_bool(im["rc"] == 0), fl, g_str(im["stdout"]))
 
 
 def replay_obj(w):
     keys = ("mode", "journal", "prices", "price_section", "jz_min", "deftime", "audit", "hash", "rtz", "smin", "smax", "targets", "exports", "accounts",
-            "bal", "grp", "reg", "eq", "group_by", "rc", "lt", "before", "titles", "style", "eqa", "filter", "prefix", "uuids", "break", "layout", "profile")
+            "bal", "grp", "reg", "eq", "group_by", "rc", "lt", "before", "titles", "style", "eqa", "filter", "prefix", "uuids", "break", "layout", "profile", "t07")
     rep = {"world": {k: w.get(k) for k in keys}, "config_file": toml_of(w), "src": w.get("src"),
            "command_line": (["--api-filter-def", filter_arg(w)] if w["filter"] is not None else [])
            + (["--price.before", w["before"]] if w["before"] is not None else [])
@@ -758,11 +976,11 @@ def check_worlds(run, worlds, st, distinct=None):
             bad.append((w, n >> 4))
     # the model's texts for the differing worlds (second evaluation, only then)
     if bad:
-        mterms = [("t06_console_model %s" if w["mode"] == "console" else "t06_files_model %s") % world_args(w) for w, _ in bad[:5]]
+        mterms = [("%s_%s_model %s" % ("t07" if w.get("t07") else "t06", "console" if w["mode"] == "console" else "files", world_args(w))) for w, _ in bad[:5]]
         mvals, merrs = coq_eval("T06-%s-model" % run.prop, IMPORTS, mterms, timeout=900)
         for (w, d), mv in zip(bad[:5], mvals or [None] * 5):
             rep = replay_obj(w)
-            rep["correspondence"] = "T06_corr.t06_console_case" if w["mode"] == "console" else "T06_corr.t06_files_case"
+            rep["correspondence"] = ("T07_corr.t07_%s_case" if w.get("t07") else "T06_corr.t06_%s_case") % ("console" if w["mode"] == "console" else "files")
             if w["mode"] == "console":
                 mt = parse_lists(mv)[0] if mv and parse_lists(mv) else None
                 rep.update({"first_differing_character": d - 1, "model_stdout": mt,
@@ -807,7 +1025,10 @@ def run_stage(run, n=None):
     worlds = cw if run.prop == "T06" else cw[:4] + [w for w in cw[4:] if w.get("tag")]
     # the first four generated worlds and a quarter of the others are profile worlds (files mode: several report files of a set with
     # metadata; equity export after a converted balance report), so that also a small n contains them
-    worlds += [gen_world(r, 0, PROFILES[i % 2] if i < 4 else r.choice([None] * 6 + PROFILES)) for i in range(n)]
+    # ... and the six T07 profiles (directory input, charts / strict mode, pattern selectors and their pairs): the next six generated
+    # worlds and 3/8 of the rest
+    forced = [PROFILES[0], PROFILES[1], PROFILES[0], PROFILES[1]] + T07_PROFILES
+    worlds += [gen_world(r, 0, forced[i] if i < len(forced) else r.choice([None] * 6 + PROFILES * 2 + T07_PROFILES)) for i in range(n)]
     for i, w in enumerate(worlds):
         w["idx"] = i
     st = new_stats()
